@@ -25,7 +25,7 @@
   * `quotientEvals`, the numerators / denominators of `permVec` are index-wise maps, the
     accumulator of `permVec` is a sequential iteration;
   * `compileWith threads order` (explicit thread count in every transform, explicit visiting order
-    of the witness map) equals `compile`.
+    of the witness map) equals `compile`; `proveWith threads` equals `prove`.
 -/
 import Plonk.Proofs.ShapeProg
 import Plonk.Proofs.CompressModel
@@ -641,6 +641,203 @@ theorem chunks_order_irrelevant (a : Array Nat) (m wm cnt : Nat) (hb : cnt * (2 
     exact butterflyChunk_comm z _ _ m wm (by rw [hz]; exact chunk_lo_bound x cnt m _ hx' hb)
       (by rw [hz]; exact chunk_lo_bound y cnt m _ hy' hb) (chunk_lo_disjoint x y m hxy)
 
+/-! ### the pieces of one `parallel_butterfly_chunk` -/
+
+/-- running twiddle started from `w` -/
+def twidW (w wm : Nat) : Nat → Nat
+  | 0 => w
+  | j + 1 => fmul (twidW w wm j) wm
+
+/-- formula for the array after `butterflyRange a lo m off len wm w` -/
+def rangeVal (a : Array Nat) (lo m wm off len w idx : Nat) : Nat :=
+  if lo + off ≤ idx ∧ idx < lo + off + len then
+    fadd (a.getD idx 0) (fmul (a.getD (idx + m) 0) (twidW w wm (idx - lo - off)))
+  else if lo + m + off ≤ idx ∧ idx < lo + m + off + len then
+    fsub (a.getD (idx - m) 0) (fmul (a.getD idx 0) (twidW w wm (idx - lo - m - off)))
+  else a.getD idx 0
+
+theorem brState_specW (a : Array Nat) (lo m wm off len w : Nat) (hlen : off + len ≤ m)
+    (hb : lo + m + off + len ≤ a.size) :
+    (brState a lo m off len wm w).2 = twidW w wm len ∧
+    ∀ idx, (brState a lo m off len wm w).1.getD idx 0 = rangeVal a lo m wm off len w idx := by
+  induction len with
+  | zero =>
+    refine ⟨rfl, ?_⟩
+    intro idx
+    unfold rangeVal
+    rw [if_neg (by omega), if_neg (by omega)]; rfl
+  | succ len ih =>
+    obtain ⟨ih2, ih3⟩ := ih (by omega) (by omega)
+    have ih1 := brState_size a lo m off len wm w
+    unfold brState at ih1 ih2 ih3 ⊢
+    rw [List.range_succ, List.foldl_append]
+    simp only [List.foldl_cons, List.foldl_nil]
+    generalize ((List.range len).foldl (brStep lo m off wm) (a, w)) = st at ih1 ih2 ih3 ⊢
+    obtain ⟨b, w'⟩ := st
+    simp only at ih1 ih2 ih3
+    subst ih2
+    simp only [brStep]
+    refine ⟨rfl, ?_⟩
+    intro idx
+    rw [getD_setIfInBounds, getD_setIfInBounds]
+    simp only [Array.size_setIfInBounds, ih1]
+    have hli : b.getD (lo + off + len) 0 = a.getD (lo + off + len) 0 := by
+      rw [ih3]; unfold rangeVal; rw [if_neg (by omega), if_neg (by omega)]
+    have hri : b.getD (lo + m + off + len) 0 = a.getD (lo + m + off + len) 0 := by
+      rw [ih3]; unfold rangeVal; rw [if_neg (by omega), if_neg (by omega)]
+    rw [hli, hri]
+    by_cases h1 : lo + off + len = idx
+    · subst h1
+      rw [if_pos ⟨rfl, by omega⟩]
+      unfold rangeVal
+      rw [if_pos (by omega)]
+      have e1 : lo + off + len + m = lo + m + off + len := by omega
+      have e2 : lo + off + len - lo - off = len := by omega
+      rw [e1, e2]
+    · rw [if_neg (by omega)]
+      by_cases h2 : lo + m + off + len = idx
+      · subst h2
+        rw [if_pos ⟨rfl, by omega⟩]
+        unfold rangeVal
+        rw [if_neg (by omega), if_pos (by omega)]
+        have e1 : lo + m + off + len - m = lo + off + len := by omega
+        have e2 : lo + m + off + len - lo - m - off = len := by omega
+        rw [e1, e2]
+      · rw [if_neg (by omega), ih3]
+        unfold rangeVal
+        have c1 : (lo + off ≤ idx ∧ idx < lo + off + (len + 1)) ↔ (lo + off ≤ idx ∧ idx < lo + off + len) := by
+          omega
+        have c2 : (lo + m + off ≤ idx ∧ idx < lo + m + off + (len + 1))
+            ↔ (lo + m + off ≤ idx ∧ idx < lo + m + off + len) := by omega
+        simp only [c1, c2]
+
+theorem butterflyRange_spec (a : Array Nat) (lo m wm off len w : Nat) (hlen : off + len ≤ m)
+    (hb : lo + m + off + len ≤ a.size) :
+    (butterflyRange a lo m off len wm w).size = a.size ∧
+    ∀ idx, (butterflyRange a lo m off len wm w).getD idx 0 = rangeVal a lo m wm off len w idx := by
+  rw [butterflyRange_eq]
+  exact ⟨brState_size .., (brState_specW a lo m wm off len w hlen hb).2⟩
+
+/-- the two index windows written (and read) by a piece -/
+def InWin (lo m off len idx : Nat) : Prop :=
+  (lo + off ≤ idx ∧ idx < lo + off + len) ∨ (lo + m + off ≤ idx ∧ idx < lo + m + off + len)
+
+theorem rangeVal_outside (a : Array Nat) (lo m wm off len w idx : Nat) (h : ¬ InWin lo m off len idx) :
+    rangeVal a lo m wm off len w idx = a.getD idx 0 := by
+  unfold InWin at h
+  unfold rangeVal
+  rw [if_neg (by omega), if_neg (by omega)]
+
+theorem rangeVal_congr (a b : Array Nat) (lo m wm off len w idx : Nat) (_hlen : off + len ≤ m)
+    (hab : ∀ j, InWin lo m off len j → a.getD j 0 = b.getD j 0) (h : InWin lo m off len idx) :
+    rangeVal a lo m wm off len w idx = rangeVal b lo m wm off len w idx := by
+  unfold rangeVal
+  by_cases c1 : lo + off ≤ idx ∧ idx < lo + off + len
+  · rw [if_pos c1, if_pos c1, hab idx h, hab (idx + m) (Or.inr (by omega))]
+  · rw [if_neg c1, if_neg c1]
+    have c2 : lo + m + off ≤ idx ∧ idx < lo + m + off + len := by
+      unfold InWin at h; omega
+    rw [if_pos c2, if_pos c2, hab idx h, hab (idx - m) (Or.inl (by omega))]
+
+/-- two pieces of the same chunk on disjoint offsets commute (whatever their start twiddles) -/
+theorem butterflyRange_comm (a : Array Nat) (lo m wm o1 l1 w1 o2 l2 w2 : Nat) (hb : lo + 2 * m ≤ a.size)
+    (h1 : o1 + l1 ≤ m) (h2 : o2 + l2 ≤ m) (hd : o1 + l1 ≤ o2 ∨ o2 + l2 ≤ o1) :
+    butterflyRange (butterflyRange a lo m o1 l1 wm w1) lo m o2 l2 wm w2
+      = butterflyRange (butterflyRange a lo m o2 l2 wm w2) lo m o1 l1 wm w1 := by
+  obtain ⟨s1, g1⟩ := butterflyRange_spec a lo m wm o1 l1 w1 h1 (by omega)
+  obtain ⟨s2, g2⟩ := butterflyRange_spec a lo m wm o2 l2 w2 h2 (by omega)
+  obtain ⟨s12, g12⟩ := butterflyRange_spec (butterflyRange a lo m o1 l1 wm w1) lo m wm o2 l2 w2 h2
+    (by omega)
+  obtain ⟨s21, g21⟩ := butterflyRange_spec (butterflyRange a lo m o2 l2 wm w2) lo m wm o1 l1 w1 h1
+    (by omega)
+  have disj : ∀ j, InWin lo m o1 l1 j → ¬ InWin lo m o2 l2 j := by
+    intro j hj1 hj2
+    unfold InWin at hj1 hj2
+    omega
+  apply array_ext_getD _ _ (by omega)
+  intro idx _
+  rw [g12, g21]
+  by_cases c2 : InWin lo m o2 l2 idx
+  · rw [rangeVal_outside _ lo m wm o1 l1 w1 idx (fun h => disj idx h c2), g2]
+    apply rangeVal_congr _ _ _ _ _ _ _ _ _ h2 _ c2
+    intro j hj
+    rw [g1, rangeVal_outside _ lo m wm o1 l1 w1 j (fun h => disj j h hj)]
+  · by_cases c1 : InWin lo m o1 l1 idx
+    · rw [rangeVal_outside _ lo m wm o2 l2 w2 idx c2, g1]
+      symm
+      apply rangeVal_congr _ _ _ _ _ _ _ _ _ h1 _ c1
+      intro j hj
+      rw [g2, rangeVal_outside _ lo m wm o2 l2 w2 j (disj j hj)]
+    · rw [rangeVal_outside _ lo m wm o2 l2 w2 idx c2, rangeVal_outside _ lo m wm o1 l1 w1 idx c1,
+        g1, g2, rangeVal_outside _ lo m wm o1 l1 w1 idx c1, rangeVal_outside _ lo m wm o2 l2 w2 idx c2]
+
+/-- the seed of piece `r`, as the code computes the seed vector (sequentially, before the parallel loop) -/
+def pieceSeed (wm L : Nat) (r : Nat) : Nat :=
+  (List.range r).foldl (fun s _ => fmul s (fpow wm L)) (1 % R)
+
+/-- the model's loop over the pieces is the loop that reads the precomputed seeds -/
+theorem pb_fold_seeds (a : Array Nat) (lo m wm L c : Nat) :
+    (List.range c).foldl (pbStep lo m wm L) (a, 1 % R)
+      = ((List.range c).foldl (fun a r =>
+          butterflyRange a lo m (r * L) (min L (m - r * L)) wm (pieceSeed wm L r)) a,
+         pieceSeed wm L c) := by
+  induction c with
+  | zero => rfl
+  | succ c ih =>
+    rw [List.range_succ, List.foldl_append, List.foldl_append, ih]
+    simp only [List.foldl_cons, List.foldl_nil, pbStep]
+    congr 1
+    unfold pieceSeed
+    rw [List.range_succ, List.foldl_append]
+    rfl
+
+theorem piece_off_lt (m L r : Nat) (hL : 0 < L) (hr : r < divCeil m L) : r * L < m := by
+  unfold divCeil at hr
+  have h1 : (r + 1) * L ≤ m + L - 1 := (Nat.le_div_iff_mul_le hL).1 hr
+  rw [Nat.add_mul, Nat.one_mul] at h1
+  omega
+
+/-- **the pieces of one `parallel_butterfly_chunk`** (`par_chunks_mut(range_len).zip(..).zip(seeds)
+    .for_each(butterfly_range)`) can be processed in any order: the result is the model's
+    `parallelButterflyChunk` (which is the serial `butterflyChunk`) -/
+theorem pieces_order_irrelevant (a : Array Nat) (lo m wm threads : Nat) (ht : 1 ≤ threads)
+    (hb : lo + 2 * m ≤ a.size) (order : List Nat)
+    (hp : order.Perm (List.range (divCeil m (divCeil m threads)))) :
+    order.foldl (fun a r => butterflyRange a lo m (r * divCeil m threads)
+        (min (divCeil m threads) (m - r * divCeil m threads)) wm
+        (pieceSeed wm (divCeil m threads) r)) a
+      = parallelButterflyChunk a lo m wm threads := by
+  rw [parallelButterflyChunk_eq, pb_fold_seeds]
+  simp only
+  by_cases hm : m = 0
+  · subst hm
+    have e1 : divCeil 0 threads = 0 := by
+      unfold divCeil; exact Nat.div_eq_of_lt (by omega)
+    have h0 : divCeil 0 (divCeil 0 threads) = 0 := by rw [e1]; rfl
+    rw [h0] at hp ⊢
+    rw [List.range_zero] at hp
+    rw [List.Perm.eq_nil hp]
+    rfl
+  have hmpos : 0 < m := Nat.pos_of_ne_zero hm
+  have hL : 0 < divCeil m threads := divCeil_pos m threads hmpos ht
+  generalize divCeil m threads = L at hp hL ⊢
+  refine foldl_perm_of_comm_inv (fun z : Array Nat => z.size = a.size) ?_ hp ?_ a rfl
+  · intro z r hz
+    rw [butterflyRange_eq, brState_size, hz]
+  · intro x hx y hy hxy z hz
+    have hx' : x * L < m := piece_off_lt m L x hL (List.mem_range.1 (hp.mem_iff.1 hx))
+    have hy' : y * L < m := piece_off_lt m L y hL (List.mem_range.1 (hp.mem_iff.1 hy))
+    apply butterflyRange_comm z lo m wm _ _ _ _ _ _ (by omega) (by omega) (by omega)
+    rcases Nat.lt_or_gt_of_ne hxy with h | h
+    · left
+      have : (x + 1) * L ≤ y * L := Nat.mul_le_mul_right _ h
+      rw [Nat.add_mul, Nat.one_mul] at this
+      omega
+    · right
+      have : (y + 1) * L ≤ x * L := Nat.mul_le_mul_right _ h
+      rw [Nat.add_mul, Nat.one_mul] at this
+      omega
+
 /-! ### the three arms of the switch -/
 
 /-- the "final stages" arm (`parallel_butterfly_chunk` per chunk) equals the serial arm -/
@@ -1011,6 +1208,201 @@ theorem compileWith_eq (threads : Nat) (ht : 1 ≤ threads) (order : List Nat) (
 theorem compileWith_default (srs : SRS) (srsLen : Nat) (label : List Nat) (c : Composer) :
     compileWith 1 (List.range c.wit.size) srs srsLen label c = compile srs srsLen label c :=
   compileWith_eq 1 (Nat.le_refl 1) _ srs srsLen label c (List.Perm.refl _)
+
+/-! ### the prover with explicit thread count -/
+
+/-- `blindPoly` with the thread count passed to the inverse transform -/
+def blindPolyWith (threads : Nat) (d : Domain) (w : List Nat) (blinders : List Nat) : Poly :=
+  let coeffs := d.ifft w threads
+  let coeffs := (blinders.zipIdx).foldl (fun (cs : List Nat) (b, i) =>
+      (cs.set i (fsub (cs.getD i 0) b)) ++ [b % R]) coeffs
+  Poly.ofCoeffs coeffs
+
+/-- `cosetEvals` with the thread count passed to the coset transform -/
+def cosetEvalsWith (threads : Nat) (d8 : Domain) (p : Poly) : Array Nat :=
+  let e := d8.cosetFft p threads
+  (e ++ e.take 8).toArray
+
+/-- `prove` (same text) where every transform receives the thread count `threads` -/
+def proveWith (threads : Nat) (k : PKey) (c : Composer) (draws : List Nat) (v3 : Bool := true) : Except PErr ProveTrace :=
+  if c.gates.size != k.constraints then .error .invalidCircuitSize else
+  match Domain.new? k.constraints, Domain.new? (8 * k.n) with
+  | some d, some d8 =>
+    let n := d.size
+    let size := k.n
+    let pisSorted := prove.Plonk.Driver.sortedPis' c
+    let pis := pisSorted.map (·.2)
+    let dense : List Nat := (List.range size).map fun i => (pisSorted.find? (·.1 == i)).map (·.2) |>.getD 0
+    let wcol (f : RowVals → Nat) : List Nat := (List.range size).map fun i => f (c.rowVals i)
+    let aS := wcol (·.a); let bS := wcol (·.b); let cS := wcol (·.c); let dS := wcol (·.d)
+    match takeDraws 8 draws with
+    | none => .error .notEnoughDraws
+    | some (wb, draws) =>
+    let aP := blindPolyWith threads d aS (wb.take 2)
+    let bP := blindPolyWith threads d bS ((wb.drop 2).take 2)
+    let cP := blindPolyWith threads d cS ((wb.drop 4).take 2)
+    let dP := blindPolyWith threads d dS ((wb.drop 6).take 2)
+    match commit4 k aP bP cP dP with
+    | .error e => .error e
+    | .ok (aC, bC, cC, dC) =>
+    -- transcript: base, public inputs, wire commitments
+    let ops0 := baseOps k.label k.vk k.constraints v3 ++ pis.map (fun pi => TOp.msg "pi" (Transcript.scalarBytes pi)) ++
+      [.msg "a_comm" aC.toCompressed, .msg "b_comm" bC.toCompressed, .msg "c_comm" cC.toCompressed,
+       .msg "d_comm" dC.toCompressed, .chal "beta", .echo "beta" "beta", .chal "gamma"]
+    let (t, chs) := runOps ops0 merlinInit
+    let get (chs : List (String × Nat)) (l : String) : Nat := (chs.find? (·.1 == l)).map (·.2) |>.getD 0
+    let beta := get chs "beta"; let gamma := get chs "gamma"
+    -- round 2: permutation vector
+    let roots := d.elements
+    let sigE : List (List Nat) := (List.range 4).map fun i => d.fft (k.sigma.getD i []) threads
+    match permVec n roots aS bS cS dS sigE beta gamma with
+    | none => .error .panicDenominator
+    | some perm =>
+    match takeDraws 3 draws with
+    | none => .error .notEnoughDraws
+    | some (zb, draws) =>
+    let zP := blindPolyWith threads d perm zb
+    match commitT k zP with
+    | .error e => .error (.commit e)
+    | .ok zC =>
+    let (t, chs3) := runOps [.msg "z_comm" zC.toCompressed, .chal "alpha", .chal "range separation challenge",
+        .chal "logic separation challenge", .chal "fixed base separation challenge",
+        .chal "variable base separation challenge"] t
+    let alpha := get chs3 "alpha"; let rSep := get chs3 "range separation challenge"
+    let lSep := get chs3 "logic separation challenge"; let fSep := get chs3 "fixed base separation challenge"
+    let vSep := get chs3 "variable base separation challenge"
+    -- round 3: quotient on the coset of size 8n
+    let piPoly := Poly.ofCoeffs (d.ifft dense threads)
+    let zE := cosetEvalsWith threads d8 zP; let aE := cosetEvalsWith threads d8 aP; let bE := cosetEvalsWith threads d8 bP
+    let cE := cosetEvalsWith threads d8 cP; let dE := cosetEvalsWith threads d8 dP
+    let piE := (d8.cosetFft piPoly threads).toArray
+    let selE := k.selE
+    let sigE8 := k.sigE8
+    let linE := k.linE
+    let vh := k.vh
+    let vhInv8 := (batchInversion ((vh.toList).take 8)).toArray
+    let l1Den := (batchInversion (linE.toList.map fun e => fsub e 1)).toArray
+    let nInv8 := fmul d8.sizeInv 8
+    let quot := quotientEvals d8.size selE sigE8 linE aE bE cE dE zE piE vh vhInv8 l1Den nInv8
+                  beta gamma alpha rSep lSep fSep vSep
+    let tPoly := Poly.ofCoeffs (d8.cosetIfft quot threads)
+    if tPoly.length > 7 * n then .error .circuitUnsatisfied else
+    match takeDraws 3 draws with
+    | none => .error .notEnoughDraws
+    | some (tb, _) =>
+    match splitQuotient n tPoly (tb.getD 0 0) (tb.getD 1 0) (tb.getD 2 0) with
+    | none => .error .panicSlice
+    | some (tLowP, tMidP, tHighP, tFourthP) =>
+    match commit4 k tLowP tMidP tHighP tFourthP with
+    | .error e => .error e
+    | .ok (tlC, tmC, thC, tfC) =>
+    let (t, chs4) := runOps [.msg "t_low_comm" tlC.toCompressed, .msg "t_mid_comm" tmC.toCompressed,
+        .msg "t_high_comm" thC.toCompressed, .msg "t_fourth_comm" tfC.toCompressed, .chal "z_challenge"] t
+    let zc := get chs4 "z_challenge"
+    let zw := fmul zc d.groupGen
+    let ev : Evals := {
+      a := Poly.evaluate aP zc, b := Poly.evaluate bP zc, c := Poly.evaluate cP zc, d := Poly.evaluate dP zc,
+      aw := Poly.evaluate aP zw, bw := Poly.evaluate bP zw, dw := Poly.evaluate dP zw,
+      qarith := Poly.evaluate (k.sel.getD 6 []) zc, qc := Poly.evaluate (k.sel.getD 5 []) zc,
+      ql := Poly.evaluate (k.sel.getD 1 []) zc, qr := Poly.evaluate (k.sel.getD 2 []) zc,
+      s1 := Poly.evaluate (k.sigma.getD 0 []) zc, s2 := Poly.evaluate (k.sigma.getD 1 []) zc,
+      s3 := Poly.evaluate (k.sigma.getD 2 []) zc, z := Poly.evaluate zP zw }
+    let sc (l : String) (v : Nat) : TOp := .msg l (Transcript.scalarBytes v)
+    let (t, chs5) := runOps [sc "a_eval" ev.a, sc "b_eval" ev.b, sc "c_eval" ev.c, sc "d_eval" ev.d,
+        sc "s_sigma_1_eval" ev.s1, sc "s_sigma_2_eval" ev.s2, sc "s_sigma_3_eval" ev.s3, sc "z_eval" ev.z,
+        sc "a_w_eval" ev.aw, sc "b_w_eval" ev.bw, sc "d_w_eval" ev.dw, sc "q_arith_eval" ev.qarith,
+        sc "q_c_eval" ev.qc, sc "q_l_eval" ev.ql, sc "q_r_eval" ev.qr, .chal "v_challenge"] t
+    let v := get chs5 "v_challenge"
+    -- round 5: linearisation polynomial
+    let padd := Poly.add
+    let sp (j : Nat) := k.sel.getD j []
+    let arithL := Poly.scale (padd (padd (padd (padd (padd (Poly.scale (sp 0) (fmul ev.a ev.b)) (Poly.scale (sp 1) ev.a))
+                    (Poly.scale (sp 2) ev.b)) (Poly.scale (sp 3) ev.c)) (Poly.scale (sp 4) ev.d)) (sp 5)) ev.qarith
+    let lin0 := padd arithL (Poly.scale (sp 7) (rangeScalar rSep ev))
+    let lin1 := Poly.addAssign lin0 (Poly.scale (sp 8) (logicScalar lSep ev))
+    let lin2 := Poly.addAssign lin1 (Poly.scale (sp 9) (fixedScalar fSep ev))
+    let lin3 := Poly.addAssign lin2 (Poly.scale (sp 10) (varScalar vSep ev))
+    let piEvalSparse := d.barycentric pis zc      -- the prover passes the *sparse* list here (see DESIGN §9.2)
+    let f1 := Poly.addConst lin3 piEvalSparse
+    let bz := fmul beta zc
+    let idL := Poly.scale zP (fmul (fmul (fmul (fmul (fadd (fadd ev.a bz) gamma) (fadd (fadd ev.b (fmul Generated.K1 bz)) gamma))
+                  (fadd (fadd ev.c (fmul Generated.K2 bz)) gamma)) (fadd (fadd ev.d (fmul Generated.K3 bz)) gamma)) alpha)
+    let cpL := Poly.scale (k.sigma.getD 3 []) (fneg (fmul (fmul (fmul (fmul (fadd (fadd ev.a (fmul beta ev.s1)) gamma)
+                  (fadd (fadd ev.b (fmul beta ev.s2)) gamma)) (fadd (fadd ev.c (fmul beta ev.s3)) gamma)) (fmul beta ev.z)) alpha))
+    let l1Dom := (Domain.new? (Poly.degree zP - 2)).getD d
+    let l1z := (l1Dom.lagrangeCoeffs zc).headD 0
+    let oneL := Poly.scale zP (fmul l1z (fsq alpha))
+    let f2 := padd (padd idL cpL) oneL
+    let zn := fpow zc n; let z2n := fpow zc (2 * n); let z3n := fpow zc (3 * n)
+    let quotL := padd (padd (padd tLowP (Poly.scale tMidP zn)) (Poly.scale tHighP z2n)) (Poly.scale tFourthP z3n)
+    let zhNeg := fneg (d.evaluateVanishing zc)
+    let rP := padd (padd f1 f2) (Poly.scale quotL zhNeg)
+    let wzP := aggregateWitness [rP, aP, bP, cP, dP, k.sigma.getD 0 [], k.sigma.getD 1 [], k.sigma.getD 2 [],
+                                 sp 6, sp 5, sp 1, sp 2] zc v
+    match commitT k wzP with
+    | .error e => .error (.commit e)
+    | .ok wzC =>
+    let (_, chs6) := runOps [.chal "v_w_challenge"] t
+    let vw := get chs6 "v_w_challenge"
+    let wzwP := aggregateWitness [zP, aP, bP, dP] zw vw
+    match commitT k wzwP with
+    | .error e => .error (.commit e)
+    | .ok wzwC =>
+      .ok { proof := { aC := aC, bC := bC, cC := cC, dC := dC, zC := zC, tLow := tlC, tMid := tmC, tHigh := thC,
+                       tFourth := tfC, wz := wzC, wzw := wzwC, ev := ev },
+            pis := pis,
+            ch := { beta := beta, gamma := gamma, alpha := alpha, rangeSep := rSep, logicSep := lSep, fixedSep := fSep,
+                    varSep := vSep, z := zc, v := v, vw := vw, u := 0 },
+            drawsUsed := 14 }
+  | _, _ => .error (.compile .degreeIsZero)
+
+
+theorem blindPolyWith_eq (m : Nat) (d : Domain) (hd : Domain.new? m = some d) (threads : Nat)
+    (ht : 1 ≤ threads) (w bs : List Nat) : blindPolyWith threads d w bs = blindPoly d w bs := by
+  unfold blindPolyWith blindPoly
+  rw [(transforms_threads m d hd threads ht w).2.1]
+
+theorem cosetEvalsWith_eq (m : Nat) (d : Domain) (hd : Domain.new? m = some d) (threads : Nat)
+    (ht : 1 ≤ threads) (p : Poly) : cosetEvalsWith threads d p = cosetEvals d p := by
+  unfold cosetEvalsWith cosetEvals
+  rw [(transforms_threads m d hd threads ht p).2.2.1]
+
+set_option linter.auxLemma false in
+/-- the auto-generated matchers of the two copies are the same functions -/
+theorem prove_matchers_eq :
+    @proveWith.match_13.{1} = @prove.match_13.{1} ∧ @proveWith.match_9.{1} = @prove.match_9.{1} ∧
+    @proveWith.match_5.{1} = @prove.match_5.{1} ∧ @proveWith.match_3.{1} = @prove.match_3.{1} ∧
+    @proveWith.match_11.{1} = @prove.match_11.{1} ∧ @proveWith.match_1.{1} = @prove.match_1.{1} ∧
+    @proveWith.match_7.{1} = @prove.match_7.{1} :=
+  ⟨rfl, rfl, rfl, rfl, rfl, rfl, rfl⟩
+
+/-- **the thread count is irrelevant for proving** -/
+theorem proveWith_eq (threads : Nat) (ht : 1 ≤ threads) (k : PKey) (c : Composer) (ds : List Nat)
+    (v3 : Bool) : proveWith threads k c ds v3 = prove k c ds v3 := by
+  unfold proveWith prove
+  obtain ⟨m13, m9, m5, m3, m11, m1, m7⟩ := prove_matchers_eq
+  rw [m13, m9, m5, m3, m11, m1, m7]
+  split
+  · rfl
+  · cases hd : Domain.new? k.constraints with
+    | none => rfl
+    | some d =>
+      cases hd8 : Domain.new? (8 * k.n) with
+      | none => rfl
+      | some d8 =>
+        have e1 := blindPolyWith_eq _ d hd threads ht
+        have e2 := cosetEvalsWith_eq _ d8 hd8 threads ht
+        have e3 : ∀ v, d.fft v threads = d.fft v := fun v => (transforms_threads _ d hd threads ht v).1
+        have e4 : ∀ v, d.ifft v threads = d.ifft v := fun v => (transforms_threads _ d hd threads ht v).2.1
+        have e5 : ∀ v, d8.cosetFft v threads = d8.cosetFft v :=
+          fun v => (transforms_threads _ d8 hd8 threads ht v).2.2.1
+        have e6 : ∀ v, d8.cosetIfft v threads = d8.cosetIfft v :=
+          fun v => (transforms_threads _ d8 hd8 threads ht v).2.2.2
+        simp only [e1, e2, e3, e4, e5, e6]
+
+/-- with the model's own choice `threads = 1` it is `prove` -/
+theorem proveWith_default (k : PKey) (c : Composer) (ds : List Nat) (v3 : Bool) :
+    proveWith 1 k c ds v3 = prove k c ds v3 := proveWith_eq 1 (Nat.le_refl 1) k c ds v3
 
 end DetProver
 
